@@ -4,7 +4,7 @@ SHELL := /bin/bash
 COQ_TIMEOUT ?= 1800
 J ?= 12
 
-.PHONY: setup all gen coq extract driver clean prectable onlinegen offlinegen offlinegen-check offlinegen-mutants denseonlinegen denseonlinegen-check denseonlinegen-mutants pastifiergen pastifiergen-check pastifiergen-mutants explainergen explainergen-check explainergen-mutants coqchk coqchk-float static
+.PHONY: setup all gen coq extract driver clean prectable onlinegen offlinegen offlinegen-check offlinegen-mutants denseonlinegen denseonlinegen-check denseonlinegen-mutants pastifiergen pastifiergen-check pastifiergen-mutants explainergen explainergen-check explainergen-mutants denseofflinegen denseofflinegen-check denseofflinegen-mutants coqchk coqchk-float static
 
 # `make all` never stops at the first failure: a source file of nickovic/rtamt that a translator refuses, or a proof that no longer
 # checks against the regenerated text, must break the obligations of the properties that depend on it and of no other property.
@@ -18,7 +18,7 @@ all:
 	@($(MAKE) coq > build/status/coq.log 2>&1 && echo ok > build/status/coq) || (tail -40 build/status/coq.log > build/status/coq; true)
 	@($(MAKE) driver > build/status/driver.log 2>&1 && echo ok > build/status/driver) || (tail -40 build/status/driver.log > build/status/driver; true)
 	@grep -v "^COQC\|^COQDEP\|Closed under the global context\|^make" build/status/coq.log | tail -5; true
-	@for f in prectable offlinegen onlinegen denseonlinegen pastifiergen explainergen coq driver; do if [ "`head -c 2 build/status/$$f`" != "ok" ]; then echo "make all: step $$f failed (build/status/$$f)"; fail=1; fi; done; test -z "$$fail"
+	@for f in prectable offlinegen onlinegen denseonlinegen pastifiergen explainergen denseofflinegen coq driver; do if [ "`head -c 2 build/status/$$f`" != "ok" ]; then echo "make all: step $$f failed (build/status/$$f)"; fail=1; fi; done; test -z "$$fail"
 
 coq/Makefile.coq: coq/_CoqProject
 	cd coq && coq_makefile -f _CoqProject -o Makefile.coq
@@ -31,6 +31,7 @@ gen:
 	@($(MAKE) -s offlinegen > build/status/offlinegen.log 2>&1 && echo ok > build/status/offlinegen) || (tail -20 build/status/offlinegen.log > build/status/offlinegen; true)
 	@($(MAKE) -s onlinegen > build/status/onlinegen.log 2>&1 && echo ok > build/status/onlinegen) || (tail -20 build/status/onlinegen.log > build/status/onlinegen; true)
 	@($(MAKE) -s denseonlinegen > build/status/denseonlinegen.log 2>&1 && echo ok > build/status/denseonlinegen) || (tail -20 build/status/denseonlinegen.log > build/status/denseonlinegen; true)
+	@($(MAKE) -s denseofflinegen > build/status/denseofflinegen.log 2>&1 && echo ok > build/status/denseofflinegen) || (tail -20 build/status/denseofflinegen.log > build/status/denseofflinegen; true)
 	@($(MAKE) -s pastifiergen > build/status/pastifiergen.log 2>&1 && echo ok > build/status/pastifiergen) || (tail -20 build/status/pastifiergen.log > build/status/pastifiergen; true)
 	@($(MAKE) -s explainergen > build/status/explainergen.log 2>&1 && echo ok > build/status/explainergen) || (tail -20 build/status/explainergen.log > build/status/explainergen; true)
 
@@ -81,6 +82,26 @@ denseonlinegen-check: coq
 # 8 semantic mutations + 3 harmless rewrites of scratch copies of the class files: translator verdict / first lemma that fails
 denseonlinegen-mutants: coq
 	python3 tools/denseonlinegen_mutants.py
+
+# the dense-time offline visitor is re-translated from the Python source on every build (fail-closed, as above: C04 is then reported as no
+# longer shown); DenseOfflineGenCorrect.v re-proves, against the new text, that every generated function equals its hand model
+# (the four window loops, intersection(), visitVariable / visitConstant stay hand-modelled and are pinned by digest)
+denseofflinegen:
+	@mkdir -p build
+	python3 tools/py2coq_denseoffline.py $(REPO) build/DenseOfflineGen.v.new
+	@cmp -s build/DenseOfflineGen.v.new coq/theories/DenseOfflineGen.v || cp build/DenseOfflineGen.v.new coq/theories/DenseOfflineGen.v
+
+# differential check of the FULL translation (--all: the four window loops included) against the Python functions (not part of `all`)
+denseofflinegen-check: coq
+	@mkdir -p build/denseofflinegen_check
+	python3 tools/py2coq_denseoffline.py $(REPO) build/denseofflinegen_check/DenseOfflineGenAll.v --all
+	cd build/denseofflinegen_check && timeout 600 coqc -Q ../../coq/theories RV -Q . Chk DenseOfflineGenAll.v
+	PYTHONDONTWRITEBYTECODE=1 PYTHONPATH=$(REPO) /venv/bin/python harness/denseofflinegen_check.py --gen build/denseofflinegen_check/DenseOfflineGenAll.v --module Chk.DenseOfflineGenAll build/denseofflinegen_check/Cases.v
+	cd build/denseofflinegen_check && timeout 3600 coqc -Q ../../coq/theories RV -Q . Chk Cases.v
+
+# semantic mutations + harmless rewrites of scratch copies of the visitor: translator verdict / first lemma that fails
+denseofflinegen-mutants: coq
+	python3 tools/denseofflinegen_mutants.py
 
 # the pastifiers and the horizon visitors (rtamt/pastifier/{ltl,stl}/*.py) are re-translated on every build (fail-closed, as above: C03 is then
 # reported as no longer shown); PastifyGenCorrect.v re-proves, against the new text, that the generated functions compute the hand model
